@@ -157,6 +157,62 @@ def encode_samples(form, labels, rows, perms, drop=None):
     raise ValueError(form)
 
 
+def coq_slike(sl, T):
+    """a samples-like python object as a Coq AsSamples.slike term (None when outside the rendered shapes)"""
+    def kv(d):
+        return clist([cpair(cnat(T.idx(k)), cq(F(x))) for k, x in d.items()])
+
+    def arrlike(a):
+        a = np.asarray(a)
+        if a.dtype == object or a.dtype.kind not in 'biuf':
+            return None
+        if a.ndim == 1:
+            return "(AsSamples.A1 %s)" % clist([cq(F(x)) for x in a])
+        if a.ndim == 2:
+            return "(AsSamples.A2 %s %s)" % (cnat(a.shape[1]), clist([clist([cq(F(x)) for x in r]) for r in a]))
+        return None
+    if isinstance(sl, dimod.SampleSet):
+        return "(AsSamples.SSet %s %s)" % (clist([cnat(T.idx(v)) for v in sl.variables]),
+                                           clist([clist([cq(F(x)) for x in r]) for r in sl.record.sample]))
+    if isinstance(sl, dict):
+        return "(AsSamples.SMap %s)" % kv(sl)
+    if isinstance(sl, tuple):
+        if len(sl) != 2:
+            return "AsSamples.STupBad"
+        a, labels = sl
+        cl = clist([cnat(T.idx(v)) for v in labels])
+        if isinstance(a, dict):
+            return "(AsSamples.STup (AsSamples.TFMap %s) %s)" % (kv(a), cl)
+        t = arrlike(a)
+        return None if t is None else "(AsSamples.STup (AsSamples.TFArr %s) %s)" % (t, cl)
+    if isinstance(sl, list) and any(isinstance(x, dict) for x in sl):
+        items = [coq_slike(x, T) for x in sl]
+        return None if any(i is None for i in items) else "(AsSamples.SList %s)" % clist(items)
+    if isinstance(sl, (list, np.ndarray)):
+        t = arrlike(sl)
+        return None if t is None else "(AsSamples.SArr %s)" % t
+    return None
+
+
+def as_samples_case(sl, T, as_iter=False):
+    """ASCase term: the model of as_samples on `sl` against what dimod.as_samples returns / raises"""
+    term = coq_slike(sl, T)
+    if term is None:
+        return None
+    if as_iter:
+        term = term.replace("(AsSamples.SList ", "(AsSamples.SIter ", 1)
+    try:
+        arr, labels = dimod.as_samples(iter(sl) if as_iter else sl)
+        seen = "(AsSamples.Ok ((%s, %s), %s))" % (cnat(arr.shape[1]), clist([clist([cq(F(x)) for x in r]) for r in arr]),
+                                                  clist([cnat(T.idx(v)) for v in labels]))
+    except ValueError:
+        seen = "(AsSamples.Err AsSamples.ValueError)"
+    except TypeError:
+        seen = "(AsSamples.Err AsSamples.TypeError)"
+    il = clist([cnat(T.idx(i)) for i in range(8)])
+    return f"(ASCase {il} {term} {seen})"
+
+
 def run_case(c):
     kind = c["kind"]
     T = LabelTable()
@@ -170,7 +226,10 @@ def run_case(c):
                                         clist([clist([cq(F(x)) for x in r]) for r in arr]))
         except ValueError:
             seen = "None"
-        return {"coq": f"(DictsCase {cds} {seen})", "features": feats, "nontrivial": len(ds) > 1}
+        extra = [t for t in (as_samples_case(ds, T), as_samples_case(ds, T, as_iter=True),
+                             as_samples_case([list(d.values()) for d in ds], T),
+                             as_samples_case(ds[:1] + [list(d.values()) for d in ds[1:]], T)) if t]
+        return {"coq": f"(DictsCase {cds} {seen})", "extra_coq": extra, "features": feats, "nontrivial": len(ds) > 1}
     if kind == 'poly':
         labels = [dec_label(l) for l in c["labels"]]
         poly = dimod.BinaryPolynomial({tuple(dec_label(x) for x in t): float(F(b)) for t, b in c["terms"]}, c["vartype"])
@@ -327,6 +386,9 @@ def run_case(c):
     feats["form"] = form
     feats["nvars"] = len(mvars)
     extra = []
+    t_as = as_samples_case(sl, T)
+    if t_as:
+        extra.append(t_as)
     cobs = coq_obs(o, T)
     if kind in ('bqm64', 'bqm32', 'qm'):
         # the code-shaped loop of cyQMBase._energies evaluated on the raw adjacency structure
